@@ -1,21 +1,46 @@
-(* C02 — property theorems only.  Proofs are in C02/Proofs.v, C02/Sqrt.v, C02/Format.v, C02/DivExact.v and Base/DecFacts.v.
-   The theorems are about the specification model (Base/DecRound.v); the C kernel is tied to it by the correspondence check only. *)
+(* C02 — property theorems only.  Proofs are in C02/Proofs.v, C02/Sqrt.v, C02/Format.v, C02/Nearest.v, C02/NearestOps.v and Base/DecFacts.v.
+   The theorems are about the specification model (Base/DecRound.v); the C kernel is tied to it by the correspondence check only.
+   "Correctly rounded" is the predicate of C02/Exact.v (read its header): the candidate set is fixed by the EXACT value x, not by the result. *)
 From Coq Require Import ZArith NArith Bool List.
-From DV Require Import Base.Dec Base.DecFacts Base.DecRound C02.Model C02.Proofs C02.Sqrt C02.Format C02.DivExact.
+From DV Require Import Base.Dec Base.DecFacts Base.DecRound C02.Model C02.Proofs C02.Sqrt C02.Format C02.Exact C02.Nearest C02.NearestOps.
 Import ListNotations.
 Open Scope Z_scope.
 
-(* HEADLINE.  The rounding step every operation ends with returns a decimal128 datum (exponent in range) whose value is a
-   nearest one to the exact value m*10^e at the target quantum (34 digits, or the subnormal grid), half-way cases go to the even
-   coefficient, and nothing is rounded when the exact value fits.  All values are written at the common base exponent b. *)
+(* ------------------------------------------------------------------ correctly rounded: the predicate determines the result *)
+(* HEADLINE (uniqueness).  x is the exact non-negative magnitude (Quot X Y e = X / Y * 10^e with Y > 0, or Root X e = sqrt (X * 10^e)), s the sign.
+   correctly_rounded x s o says: if x reaches the overflow threshold (10^34 - 1/2) * 10^6111, o is null; otherwise o is a decimal128 datum r
+   with sign s whose value is c * 10^q, where q is the exponent fixed by the magnitude of x (the unique q >= -6176 with x < 10^34 * 10^q and,
+   unless q = -6176, 10^33 * 10^q <= x) and c is x / 10^q rounded to the nearest integer, half-way cases to the even one.  Every comparison
+   with x is an integer comparison by cross-multiplication (pt_cmp).  Two results that satisfy the predicate for the same x and s are equal as
+   numbers: both null, or data with the same value (veq: the representation - trailing zeros, clamping - is not fixed, FEEL reduces anyway). *)
+Theorem C02_correctly_rounded_unique : forall x s o1 o2, exact_wf x ->
+  correctly_rounded x s o1 -> correctly_rounded x s o2 -> oveq o1 o2.
+Proof. exact correctly_rounded_unique. Qed.
+Theorem C02_rounds_to_unique : forall x s r1 r2, exact_wf x -> rounds_to x s r1 -> rounds_to x s r2 -> veq r1 r2.
+Proof. exact rounds_to_unique. Qed.
+(* the exponent and the coefficient are each determined by x *)
+Theorem C02_quantum_unique : forall x q1 q2, exact_wf x -> quantum x q1 -> quantum x q2 -> q1 = q2.
+Proof. exact quantum_unique. Qed.
+Theorem C02_nearest_even_unique : forall x c1 c2 q, exact_wf x -> nearest_even x c1 q -> nearest_even x c2 q -> c1 = c2.
+Proof. exact nearest_even_unique. Qed.
+
+(* HEADLINE.  The rounding step every operation ends with is correctly rounded, for EVERY sign, coefficient (any size, zero included) and
+   exponent: round34 s m e is THE decimal128 nearest to m * 10^e (ties to even), null exactly on overflow. *)
+Theorem C02_round34_correctly_rounded : forall s m e, correctly_rounded (Quot m 1 e) s (round34 s m e).
+Proof. exact round34_correctly_rounded. Qed.
+
+(* The same with the quantum written out: the exponent e1 = target_exp m e is computed from the operands (not from the result), the datum d is
+   c units of 10^e1, c * 10^e1 lies within half a unit of the exact value m * 10^e, c is even on an exact tie, and nothing is rounded when
+   e1 = e.  All values are written at the common base exponent b.  (The tie clause speaks of the result's own coefficient c.) *)
 Theorem C02_round34_nearest_even : forall s m e d, (0 < m)%N -> round34 s m e = Some d ->
   let e1 := target_exp m e in let b := Z.min e ETINY in
   neg d = s /\ ETINY <= expo d <= ETOP /\
-  2 * Z.abs (Z.of_N (coef d) * 10 ^ (expo d - b) - Z.of_N m * 10 ^ (e - b)) <= 10 ^ (e1 - b) /\
-  (e < e1 -> 2 * Z.abs (Z.of_N (coef d) * 10 ^ (expo d - b) - Z.of_N m * 10 ^ (e - b)) = 10 ^ (e1 - b) ->
-   N.even (round_half_even m (Z.to_N (e1 - e))) = true) /\
-  (e1 = e -> Z.of_N (coef d) * 10 ^ (expo d - b) = Z.of_N m * 10 ^ (e - b)).
-Proof. exact round34_nearest_even. Qed.
+  exists c : N,
+    Z.of_N (coef d) * 10 ^ (expo d - b) = Z.of_N c * 10 ^ (e1 - b) /\
+    2 * Z.abs (Z.of_N c * 10 ^ (e1 - b) - Z.of_N m * 10 ^ (e - b)) <= 10 ^ (e1 - b) /\
+    (2 * Z.abs (Z.of_N c * 10 ^ (e1 - b) - Z.of_N m * 10 ^ (e - b)) = 10 ^ (e1 - b) -> N.even c = true) /\
+    (e1 = e -> c = m).
+Proof. exact round34_nearest_even_result. Qed.
 
 Theorem C02_round_half_even : forall m drop, (0 < drop)%N ->
   let p := (10 ^ drop)%N in let q := round_half_even m drop in
@@ -32,79 +57,101 @@ Proof. exact round34_exact. Qed.
 Theorem C02_round34_in_format : forall s m e d, round34 s m e = Some d -> in_format d = true.
 Proof. exact round34_in_format. Qed.
 
-(* division: the quotient is cut after >= 36 digits and one sticky digit records a non-zero remainder; rounding that number is rounding
-   the exact quotient n/b (nearest, ties to even) as soon as two digits are dropped, and ddiv always drops at least three *)
-Theorem C02_div_sticky : forall n b D, (0 < b)%N -> (2 <= D)%N ->
-  let q := (n / b)%N in let r := (n mod b)%N in
-  let m := (10 * q + (if (r =? 0)%N then 0 else 1))%N in
-  let c := Z.of_N (round_half_even m D) in let P := Z.of_N (10 ^ (D - 1)) in
-  2 * Z.abs (c * P * Z.of_N b - Z.of_N n) <= P * Z.of_N b /\
-  (2 * Z.abs (c * P * Z.of_N b - Z.of_N n) = P * Z.of_N b -> Z.even c = true).
-Proof. exact div_sticky. Qed.
-Theorem C02_div_drops_at_least_3 : forall ca cb e, (0 < ca)%N -> (0 < cb)%N ->
+(* ------------------------------------------------------------------ every arithmetic operation is correctly rounded *)
+(* * and integer powers: the exact product / power *)
+Theorem C02_mul_correctly_rounded : forall a b,
+  correctly_rounded (Quot (coef a * coef b) 1 (expo a + expo b)) (xorb (neg a) (neg b)) (dmul a b).
+Proof. exact dmul_correctly_rounded. Qed.
+Theorem C02_pow_nat_correctly_rounded : forall a n,
+  correctly_rounded (Quot (coef a ^ n) 1 (expo a * Z.of_N n)) (neg a && N.odd n) (dpow_nat a n).
+Proof. exact dpow_nat_correctly_rounded. Qed.
+
+(* + - modulo: the exact integer sum / difference / remainder z at the smaller exponent e; the sign is the sign of z, an exact zero gets the
+   sign IEEE prescribes (zsign z zs = if z = 0 then zs else z < 0) *)
+Theorem C02_add_correctly_rounded : forall a b, let e := emin2 a b in let z := scaled a e + scaled b e in
+  correctly_rounded (Quot (Z.abs_N z) 1 e) (zsign z (neg a && neg b)) (dadd a b).
+Proof. exact dadd_correctly_rounded. Qed.
+Theorem C02_sub_correctly_rounded : forall a b, let e := emin2 a b in let z := scaled a e - scaled b e in
+  correctly_rounded (Quot (Z.abs_N z) 1 e) (zsign z (neg a && negb (neg b))) (dsub a b).
+Proof. exact dsub_correctly_rounded. Qed.
+Theorem C02_mod_correctly_rounded : forall a b, coef b <> 0%N -> let e := emin2 a b in
+  let z := scaled a e - scaled b e * floor_div a b in
+  correctly_rounded (Quot (Z.abs_N z) 1 e) (zsign z (neg b)) (dmod a b).
+Proof. exact dmod_correctly_rounded. Qed.
+
+(* HEADLINE for division: for EVERY pair of finite decimals with a non-zero divisor (any coefficient size, any exponent, zero dividend
+   included) ddiv a b is the correctly rounded exact rational quotient coef a / coef b * 10^(expo a - expo b) with the sign (sign a xor sign b):
+   null exactly when the quotient reaches the overflow threshold, otherwise THE nearest decimal128 (ties to even; 34 digits, or the subnormal
+   grid), the exponent being fixed by the quotient.  Proof: ddiv computes at least 36 quotient digits (C02_div_quotient_digits) and a sticky
+   digit; that number and the exact quotient compare alike with every multiple of ten units of the last computed digit. *)
+Theorem C02_div_correctly_rounded : forall a b, (0 < coef b)%N ->
+  correctly_rounded (Quot (coef a) (coef b) (expo a - expo b)) (xorb (neg a) (neg b)) (ddiv a b).
+Proof. exact ddiv_nearest. Qed.
+Theorem C02_div_quotient_digits : forall ca cb, (0 < ca)%N -> (0 < cb)%N ->
   let k := Z.to_N (Z.max 0 (36 + Z.of_N (ndigits cb) - Z.of_N (ndigits ca))) in
-  let q := (ca * 10 ^ k / cb)%N in
-  forall s, (s <= 1)%N -> 3 <= target_exp (10 * q + s) e - e.
-Proof. exact ddiv_drops_at_least_3. Qed.
+  (10 ^ 35 <= ca * 10 ^ k / cb)%N.
+Proof. exact ddiv_quotient_digits. Qed.
 
-(* square root: floor root plus a sticky digit; c is nearest to sqrt n / P (stated with squares of the half-way points), ties to even *)
-Theorem C02_sqrt_sticky : forall n D, (2 <= D)%N ->
-  let s := N.sqrt n in let m := (10 * s + (if (s * s =? n)%N then 0 else 1))%N in
-  let c := Z.of_N (round_half_even m D) in let P := Z.of_N (10 ^ (D - 1)) in
-  4 * Z.of_N n <= ((2 * c + 1) * P) ^ 2 /\ (0 < c -> ((2 * c - 1) * P) ^ 2 <= 4 * Z.of_N n) /\
-  (4 * Z.of_N n = ((2 * c + 1) * P) ^ 2 -> Z.even c = true) /\
-  (0 < c -> 4 * Z.of_N n = ((2 * c - 1) * P) ^ 2 -> Z.even c = true).
-Proof. exact sqrt_sticky. Qed.
-
-(* dsqrt's scaled radicand c * 10^(2k) always has a floor root of at least 36 digits, so at least three digits of 10*root + sticky are
-   dropped by the rounding step: C02_sqrt_sticky applies to every square root the model computes (analogue of C02_div_drops_at_least_3) *)
+(* HEADLINE for sqrt: for EVERY finite decimal d that is zero or not negative (any coefficient size, any exponent) dsqrt d is the correctly
+   rounded exact square root sqrt (coef d * 10^(expo d)) (comparisons with the root are comparisons of squares).  Proof: dsqrt computes a
+   floor root of at least 36 digits (C02_sqrt_root_digits) and a sticky digit. *)
+Theorem C02_sqrt_correctly_rounded : forall d, coef d = 0%N \/ neg d = false ->
+  correctly_rounded (Root (coef d) (expo d)) (neg d) (dsqrt d).
+Proof. exact dsqrt_nearest. Qed.
 Theorem C02_sqrt_root_digits : forall c, (0 < c)%N ->
   let k := Z.to_N (Z.max 0 (36 - Z.of_N (ndigits c) / 2)) in
   (10 ^ 35 <= N.sqrt (c * 10 ^ (2 * k)))%N.
 Proof. exact dsqrt_root_digits. Qed.
-Theorem C02_sqrt_drops_at_least_3 : forall c e, (0 < c)%N ->
-  let k := Z.to_N (Z.max 0 (36 - Z.of_N (ndigits c) / 2)) in
-  let s := N.sqrt (c * 10 ^ (2 * k)) in
-  forall t, (t <= 1)%N -> 3 <= target_exp (10 * s + t) e - e.
-Proof. exact dsqrt_drops_at_least_3. Qed.
 
-(* HEADLINE for sqrt: for EVERY positive finite decimal d (any coefficient, any exponent) a result r of dsqrt is a decimal128 datum whose
-   value is c * 10^q, where c * 10^q is a nearest multiple of 10^q to the exact square root of d, half-way cases going to an even c
-   (integers only: at every common scale 10^B with B <= q and 2B <= expo d, X = 4 * d / 10^(2B) lies between the squares of the doubled
-   half-way points lo = (2c-1) * 10^(q-B) and hi = (2c+1) * 10^(q-B)), c has at most 34 digits (c <= 10^34) and the quantum is the
-   34-digit one (10^33 <= c) unless q is the smallest exponent -6176 *)
-Theorem C02_sqrt_correctly_rounded : forall d r, (0 < coef d)%N -> neg d = false -> dsqrt d = Some r ->
-  exists (c : N) (q : Z),
-    in_format r = true /\ neg r = false /\ veq r (mkdec false c q) /\
-    (c <= 10 ^ 34)%N /\ ETINY <= q /\ (ETINY < q -> (10 ^ 33 <= c)%N) /\
-    forall B, B <= q -> 2 * B <= expo d ->
-      let X := 4 * Z.of_N (coef d) * 10 ^ (expo d - 2 * B) in
-      let lo := (2 * Z.of_N c - 1) * 10 ^ (q - B) in
-      let hi := (2 * Z.of_N c + 1) * 10 ^ (q - B) in
-      X <= hi ^ 2 /\ ((0 < c)%N -> lo ^ 2 <= X) /\
-      (X = hi ^ 2 -> N.even c = true) /\ ((0 < c)%N -> X = lo ^ 2 -> N.even c = true).
-Proof. exact dsqrt_correctly_rounded. Qed.
+(* what FEEL sees is the reduced result (f_add = reduced (dadd ..), ... f_sqrt = reduced (dsqrt ..)): still the correct rounding *)
+Theorem C02_reduce_correctly_rounded : forall x s o, correctly_rounded x s o -> correctly_rounded x s (reduced o).
+Proof. exact reduced_correctly_rounded. Qed.
+
+(* the counter-instance of the audit: a = 10^34 - 3, b = 1.  The model returns the exact quotient; the predicate accepts it and REJECTS 1E+34,
+   which the earlier statement of C02_div_correctly_rounded (div_weak_statement, kept in C02/Exact.v for this example only) accepted. *)
+Example C02_audit_counterexample :
+  ddiv (mkdec false 9999999999999999999999999999999997 0) (mkdec false 1 0) = Some (mkdec false 9999999999999999999999999999999997 0) /\
+  rounds_to (Quot 9999999999999999999999999999999997 1 0) false (mkdec false 9999999999999999999999999999999997 0) /\
+  ~ rounds_to (Quot 9999999999999999999999999999999997 1 0) false (mkdec false 1 34) /\
+  div_weak_statement (mkdec false 9999999999999999999999999999999997 0) (mkdec false 1 0) (mkdec false 1 34).
+Proof. exact audit_counterexample. Qed.
+
+(* the predicate singles out the result: the computed value satisfies it, its neighbour does not (2/3; both kinds of exact tie; ties on the
+   subnormal grid; overflow; sqrt 2) *)
+Example C02_correctly_rounded_nonvacuous :
+  rounds_to (Quot 2 3 0) false (mkdec false 6666666666666666666666666666666667 (-34)) /\
+  ~ rounds_to (Quot 2 3 0) false (mkdec false 6666666666666666666666666666666666 (-34)) /\
+  rounds_to (Quot 9999999999999999999999999999999999 2 0) false (mkdec false 5 33) /\
+  ~ rounds_to (Quot 9999999999999999999999999999999999 2 0) false (mkdec false 4999999999999999999999999999999999 0) /\
+  rounds_to (Quot 9999999999999999999999999999999997 2 0) false (mkdec false 4999999999999999999999999999999998 0) /\
+  ~ rounds_to (Quot 9999999999999999999999999999999997 2 0) false (mkdec false 4999999999999999999999999999999999 0) /\
+  rounds_to (Quot 1 2 (-6176)) false (mkdec false 0 (-6176)) /\
+  ~ rounds_to (Quot 1 2 (-6176)) false (mkdec false 1 (-6176)) /\
+  rounds_to (Quot 3 2 (-6176)) false (mkdec false 2 (-6176)) /\
+  overflows (Quot 1 1 6211) /\ ddiv (mkdec false 1 6111) (mkdec false 1 (-100)) = None /\
+  in_range (Quot 99999999999999999999999999999999994 1 6110) /\
+  rounds_to (Root 2 0) false (mkdec false 1414213562373095048801688724209698 (-33)) /\
+  ~ rounds_to (Root 2 0) false (mkdec false 1414213562373095048801688724209699 (-33)).
+Proof. exact correctly_rounded_examples. Qed.
 
 (* the square root of a non-negative decimal128 datum exists (never null: no overflow, no underflow) *)
 Theorem C02_sqrt_defined : forall d, in_format d = true -> coef d = 0%N \/ neg d = false -> exists r, dsqrt d = Some r.
 Proof. exact dsqrt_defined. Qed.
+
+(* ... and is null exactly for a negative non-zero operand *)
+Theorem C02_sqrt_null_iff : forall d, in_format d = true -> (dsqrt d = None <-> coef d <> 0%N /\ neg d = true).
+Proof. exact dsqrt_none_iff. Qed.
 
 Example C02_sqrt_nonvacuous :
   dsqrt (mkdec false 2 0) = Some (mkdec false 1414213562373095048801688724209698 (-33)) /\
   f_sqrt (mkdec false 16 0) = Some (mkdec false 4 0) /\
   f_sqrt (mkdec false 1 (-6176)) = Some (mkdec false 1 (-3088)) /\
   f_sqrt (mkdec false 9999999999999999999999999999999999 6111) = Some (mkdec false 3162277660168379331998893544432718 3039) /\
-  sqrt_nearest_even_at (mkdec false 2 0) 1414213562373095048801688724209698 (-33) (-33) /\
-  (2 * 1414213562373095048801688724209698 - 1) ^ 2 < 4 * 2 * 10 ^ 66 < (2 * 1414213562373095048801688724209698 + 1) ^ 2.
-Proof. exact sqrt_examples. Qed.
+  dsqrt (mkdec true 0 (-3)) = Some (mkdec true 0 (-2)) /\
+  dsqrt (mkdec true 1 0) = None.
+Proof. exact sqrt_values. Qed.
 
-(* + and * : the exact integer result, then one rounding; exact when the exact result is representable *)
-Theorem C02_add_exact_then_round : forall a b,
-  dadd a b = round_Z (scaled a (emin2 a b) + scaled b (emin2 a b)) (emin2 a b) (neg a && neg b).
-Proof. exact dadd_exact_then_round. Qed.
-Theorem C02_mul_exact_then_round : forall a b,
-  dmul a b = round34 (xorb (neg a) (neg b)) (coef a * coef b) (expo a + expo b).
-Proof. exact dmul_exact_then_round. Qed.
+(* + and * are exact when the exact result is representable at the operands' exponent *)
 Theorem C02_add_exact : forall a b, Z.abs (scaled a (emin2 a b) + scaled b (emin2 a b)) < 10 ^ 34 -> ETINY <= emin2 a b <= ETOP ->
   exists r, dadd a b = Some r /\ expo r = emin2 a b /\ sval r = scaled a (emin2 a b) + scaled b (emin2 a b).
 Proof. exact dadd_exact. Qed.
@@ -115,8 +162,9 @@ Proof. exact dmul_exact. Qed.
 (* comparison is by value: equal numbers compare equal whatever their trailing zeros; equality is an equivalence, < is transitive, antisymmetric *)
 Theorem C02_trailing_zeros_equal : forall s c e k, 0 <= k -> dcmp (mkdec s c e) (mkdec s (c * 10 ^ Z.to_N k)%N (e - k)) = Eq.
 Proof. exact trailing_zeros_equal. Qed.
-Theorem C02_cmp_eq_iff_value : forall a b, dcmp a b = Eq <-> veq a b.
-Proof. exact dcmp_eq_iff_veq. Qed.
+(* comparison answers "equal" exactly when the two values, read at ANY common exponent e, are the same integer (veq is the case e = emin2 a b) *)
+Theorem C02_cmp_eq_iff_value : forall a b e, e <= expo a -> e <= expo b -> (dcmp a b = Eq <-> scaled a e = scaled b e).
+Proof. exact dcmp_eq_iff_value_at. Qed.
 Theorem C02_cmp_antisym : forall a b, dcmp b a = CompOpp (dcmp a b).
 Proof. exact dcmp_antisym. Qed.
 Theorem C02_value_eq_trans : forall a b c, veq a b -> veq b c -> veq a c.
@@ -139,11 +187,15 @@ Theorem C02_mod_exact_remainder : forall a b, coef b <> 0%N ->
   r = (scaled a e) mod (scaled b e) /\ ((0 <= r < scaled b e) \/ (scaled b e < r <= 0)).
 Proof. exact dmod_exact_remainder. Qed.
 
-(* undefined results are null; a result of the model is a finite datum by construction (type dec has no Infinity and no NaN) *)
-Theorem C02_div_by_zero_null : forall a b, coef b = 0%N -> ddiv a b = None /\ dmod a b = None.
-Proof. exact div_by_zero_null. Qed.
-Theorem C02_sqrt_negative_null : forall a, coef a <> 0%N -> neg a = true -> dsqrt a = None.
-Proof. exact sqrt_negative_null. Qed.
+(* null exactly when the result is undefined or out of range (a result of the model is a finite datum by construction: the type dec has no
+   Infinity and no NaN): division is null iff the divisor is zero or the exact quotient reaches the overflow threshold; modulo likewise with the
+   exact remainder (which cannot reach it for operands in format); for sqrt see C02_sqrt_null_iff *)
+Theorem C02_div_null_iff : forall a b,
+  ddiv a b = None <-> coef b = 0%N \/ ((0 < coef b)%N /\ overflows (Quot (coef a) (coef b) (expo a - expo b))).
+Proof. exact ddiv_none_iff. Qed.
+Theorem C02_mod_null_iff : forall a b, let e := emin2 a b in let z := scaled a e - scaled b e * floor_div a b in
+  dmod a b = None <-> coef b = 0%N \/ (coef b <> 0%N /\ overflows (Quot (Z.abs_N z) 1 e)).
+Proof. exact dmod_none_iff. Qed.
 
 (* the code's modulo (every step rounded) is not the Spec: known finding modulo-stepwise-rounding *)
 Theorem C02_mod_steps_refuted : exists a b, mod_known a b = true /\ f_mod a b = Some (mkdec false 1 0) /\ f_mod_steps a b = Some (mkdec false 1 6).
@@ -241,31 +293,9 @@ Example C02_format_nonvacuous :
   in_format (mkdec false 1 6112) = false.
 Proof. exact format_examples. Qed.
 
-(* ------------------------------------------------------------------ division is correctly rounded *)
-(* HEADLINE for division: for EVERY pair of finite decimals with non-zero coefficients (any coefficient size, any exponent) a result r of
-   ddiv is a decimal128 datum with the sign (sign a xor sign b) whose value is c * 10^q, where c * 10^q is a nearest multiple of 10^q to the
-   exact rational quotient |a| / |b|, half-way cases going to an even c.  Integers only: at every common scale 10^B (B <= expo a,
-   B <= q + expo b), with X = |a| / 10^B and Y = |b| * 10^q / 10^B the inequality |c * 10^q - |a|/|b|| <= 10^q / 2 reads
-   2 * |c * Y - X| <= Y.  c has at most 34 digits (c <= 10^34) and the quantum is the 34-digit one (10^33 <= c) unless q is the smallest
-   exponent -6176 (subnormal results).  This links C02_div_sticky and C02_div_drops_at_least_3 to the actual ddiv. *)
-Theorem C02_div_correctly_rounded : forall a b r, (0 < coef a)%N -> (0 < coef b)%N -> ddiv a b = Some r ->
-  exists (c : N) (q : Z),
-    in_format r = true /\ neg r = xorb (neg a) (neg b) /\ veq r (mkdec (xorb (neg a) (neg b)) c q) /\
-    (c <= 10 ^ 34)%N /\ ETINY <= q /\ (ETINY < q -> (10 ^ 33 <= c)%N) /\
-    forall B, B <= expo a -> B <= q + expo b ->
-      let X := Z.of_N (coef a) * 10 ^ (expo a - B) in
-      let Y := Z.of_N (coef b) * 10 ^ (q + expo b - B) in
-      2 * Z.abs (Z.of_N c * Y - X) <= Y /\ (2 * Z.abs (Z.of_N c * Y - X) = Y -> N.even c = true).
-Proof. exact ddiv_correctly_rounded. Qed.
-
-(* a zero dividend gives an exact zero (exponent clamped into the range); a zero divisor gives null (C02_div_by_zero_null) *)
-Theorem C02_div_zero_dividend : forall a b, coef a = 0%N -> coef b <> 0%N ->
-  ddiv a b = Some (mkdec (xorb (neg a) (neg b)) 0 (clamp_exp (expo a - expo b))).
-Proof. exact ddiv_zero_dividend. Qed.
-
-(* 1/3, 2/3, -2/3, two exact ties (35-digit quotients ending in 5: one goes up to the even neighbour, one down), an exact quotient,
-   overflow -> null, a tie on the subnormal grid going to zero and one going up, gradual underflow of 1E-6143 / 3; the bound for 2/3 is
-   strict, the first tie meets it with an even coefficient *)
+(* computed quotients: 1/3, 2/3, -2/3, two exact ties (35-digit quotients ending in 5: one goes up to the even neighbour, one down), an exact
+   quotient, overflow -> null, a tie on the subnormal grid going to zero and one going up, gradual underflow of 1E-6143 / 3, a zero dividend
+   (an exact zero with the sign of the quotient), a zero divisor *)
 Example C02_div_nonvacuous :
   ddiv (mkdec false 1 0) (mkdec false 3 0) = Some (mkdec false 3333333333333333333333333333333333 (-34)) /\
   ddiv (mkdec false 2 0) (mkdec false 3 0) = Some (mkdec false 6666666666666666666666666666666667 (-34)) /\
@@ -277,25 +307,34 @@ Example C02_div_nonvacuous :
   ddiv (mkdec false 1 (-6176)) (mkdec false 2 0) = Some (mkdec false 0 (-6176)) /\
   ddiv (mkdec false 3 (-6176)) (mkdec false 2 0) = Some (mkdec false 2 (-6176)) /\
   ddiv (mkdec false 1 (-6143)) (mkdec false 3 0) = Some (mkdec false 333333333333333333333333333333333 (-6176)) /\
-  div_nearest_even_at (mkdec false 2 0) (mkdec false 3 0) 6666666666666666666666666666666667 (-34) (-34) /\
-  2 * Z.abs (6666666666666666666666666666666667 * 3 - 2 * 10 ^ 34) < 3 /\
-  2 * Z.abs (5000000000000000000000000000000000 * (2 * 10) - 9999999999999999999999999999999999 * 10) = 2 * 10.
-Proof. exact div_examples. Qed.
+  ddiv (mkdec true 0 5) (mkdec false 3 0) = Some (mkdec true 0 5) /\
+  ddiv (mkdec false 1 0) (mkdec false 0 0) = None.
+Proof. exact div_values. Qed.
 
+Print Assumptions C02_correctly_rounded_unique.
+Print Assumptions C02_rounds_to_unique.
+Print Assumptions C02_quantum_unique.
+Print Assumptions C02_nearest_even_unique.
+Print Assumptions C02_round34_correctly_rounded.
 Print Assumptions C02_round34_nearest_even.
 Print Assumptions C02_round_half_even.
 Print Assumptions C02_round_exact.
 Print Assumptions C02_round34_in_format.
-Print Assumptions C02_div_sticky.
-Print Assumptions C02_div_drops_at_least_3.
-Print Assumptions C02_sqrt_sticky.
-Print Assumptions C02_sqrt_root_digits.
-Print Assumptions C02_sqrt_drops_at_least_3.
+Print Assumptions C02_mul_correctly_rounded.
+Print Assumptions C02_pow_nat_correctly_rounded.
+Print Assumptions C02_add_correctly_rounded.
+Print Assumptions C02_sub_correctly_rounded.
+Print Assumptions C02_mod_correctly_rounded.
+Print Assumptions C02_div_correctly_rounded.
+Print Assumptions C02_div_quotient_digits.
 Print Assumptions C02_sqrt_correctly_rounded.
+Print Assumptions C02_sqrt_root_digits.
+Print Assumptions C02_reduce_correctly_rounded.
+Print Assumptions C02_audit_counterexample.
+Print Assumptions C02_correctly_rounded_nonvacuous.
 Print Assumptions C02_sqrt_defined.
+Print Assumptions C02_sqrt_null_iff.
 Print Assumptions C02_sqrt_nonvacuous.
-Print Assumptions C02_add_exact_then_round.
-Print Assumptions C02_mul_exact_then_round.
 Print Assumptions C02_add_exact.
 Print Assumptions C02_mul_exact.
 Print Assumptions C02_trailing_zeros_equal.
@@ -307,8 +346,8 @@ Print Assumptions C02_reduce_value.
 Print Assumptions C02_floor_spec.
 Print Assumptions C02_ceiling_spec.
 Print Assumptions C02_mod_exact_remainder.
-Print Assumptions C02_div_by_zero_null.
-Print Assumptions C02_sqrt_negative_null.
+Print Assumptions C02_div_null_iff.
+Print Assumptions C02_mod_null_iff.
 Print Assumptions C02_mod_steps_refuted.
 Print Assumptions C02_nonvacuous.
 Print Assumptions C02_results_in_format.
@@ -321,6 +360,4 @@ Print Assumptions C02_mul_null_iff_overflow.
 Print Assumptions C02_add_null_iff_overflow.
 Print Assumptions C02_overflow_nonvacuous.
 Print Assumptions C02_format_nonvacuous.
-Print Assumptions C02_div_correctly_rounded.
-Print Assumptions C02_div_zero_dividend.
 Print Assumptions C02_div_nonvacuous.
